@@ -212,7 +212,7 @@ func (w *World) cursorStoreForward(st *ssa.Store) (bool, string) {
 
 func ruleC13R1(w *World, r *Report) {
 	const rule = "C13/R1"
-	r.rule(rule, "Lexer.pos is stored only in skip/skipN; the position/trivia fields of a token are stored only in (*Lexer).nextToken; the parser's '>>' split rewrites Kind/Raw/Pos of the current token only under Kind == \">>\" with Kind/Raw = \">\" and Pos = Pos + 1", 8)
+	r.rule(rule, "Lexer.pos is stored only in skip/skipN; the position/trivia fields of a token are stored only in (*Lexer).nextToken; the parser's '>>' split rewrites Kind/Raw/Pos of the current token only under Kind == \">>\" with Kind/Raw = \">\" and Pos = Pos + 1", 4)
 	nPos, nTok := 0, 0
 	for _, fn := range w.ModFns {
 		if !corePkg(fnPkgPath(fn)) {
@@ -447,7 +447,7 @@ func (w *World) posLoadOf(v ssa.Value) *ssa.UnOp {
 
 func ruleC13R2(w *World, r *Report) {
 	const rule = "C13/R2"
-	r.rule(rule, "in (*Lexer).nextToken every cursor-advancing call is captured by exactly one slice Buffer[lo:hi] stored into Space, a comment's Raw or Token.Raw whose bounds are loads of Lexer.pos with exactly that call between them; the Pos/End stored with each slice are loads of Lexer.pos in the same cursor epoch as lo/hi", 8)
+	r.rule(rule, "in (*Lexer).nextToken every cursor-advancing call is captured by exactly one slice Buffer[lo:hi] stored into Space, a comment's Raw or Token.Raw whose bounds are loads of Lexer.pos with exactly that call between them; the Pos/End stored with each slice are loads of Lexer.pos in the same cursor epoch as lo/hi", 4)
 	fn := w.fn(w.Mem, "(*Lexer).nextToken")
 	if fn == nil {
 		r.errorf("(*Lexer).nextToken not found")
